@@ -24,9 +24,14 @@ package query
 //@ func tokenize
 //@   props C12
 //@   nopanic
+// removeQuote takes one quote character from each end of a quoted field, or nothing: quote characters inside - of the
+// other kind, right next to the outer ones included - belong to the value (C12: "parsing accepts exactly the documented
+// syntax": `title:"'foo' is broken"` asks for the title 'foo' is broken)
 //@ func removeQuote
 //@   props C12
 //@   nopanic
+// (runes are modelled as bytes here - an engine limit, reported with every run: the statement is exact for ASCII fields)
+//@   ensures [at-most-the-two-outer-quotes-go] result == field || (len(field) >= 2 && len(result) == len(field) - 2 && (forall k int :: { result[k] } 0 <= k && k < len(result) ==> result[k] == field[k + 1]))
 //@ func splitFunc
 //@   props C12
 //@   nopanic
